@@ -138,10 +138,9 @@ Section Builder.
             match oall (map schema_json ss) with
             | Some js =>
                 match op with
-                | 0 => Some (with_meta [(T_allOf, JArr js)] desc title)
-                | 1 => Some (with_meta [(T_anyOf, JArr js)] desc title)
-                | 2 => Some (with_meta [(T_oneOf, JArr js)] desc title)
-                | _ => None                                   (* unreachable!() *)
+                | OJoin => Some (with_meta [(T_allOf, JArr js)] desc title)
+                | OAny => Some (with_meta [(T_anyOf, JArr js)] desc title)
+                | OSum => Some (with_meta [(T_oneOf, JArr js)] desc title)
                 end
             | None => None
             end
